@@ -87,7 +87,7 @@ class ValidateAa55:
     returns = "bool"
     pure = True
     raises_only = (PartialResponseException,)
-    raises_only_name = "C01_C02_C04_raises_only"
+    raises_only_name = "C01_C02_C04_C09_raises_only"
     cover = ("True", "False", "PartialResponseException")
 
     def ensures_C01_accept_implies_wellformed(data, response_type, result):
